@@ -763,7 +763,7 @@ def case_list(tier: str):
     out = []
     out += [("str", s) for s in gen.plain_specs(N)]
     out += [("str", s) for s in gen.plain_specs(N - 1, alphabet=UNI)]
-    idspecs = list(gen.eqpair_specs(N)) + list(gen.explicit_id_specs(N)) + list(idclone_specs(N, ids=("id7", 0)))
+    idspecs = list(gen.eqpair_specs(N)) + list(gen.explicit_id_specs(N)) + list(idclone_specs(N, ids=("id7", 0, "007")))  # "007": a digit-only str id stays a str
     # without a load mapper these all hit the same refusal of Tree.load; the quick tier keeps the small ones
     out += [("str", s) for s in idspecs if tier != "quick" or len(s) <= 3]
     out += [("strcb", s) for s in idspecs]
